@@ -42,18 +42,21 @@ def run(run, replay=None):
         if n % max(1, len(behs) // 4) == 0:
             run.sample({'ids': b['ids'], 'extended_by_arbitrary_id': b['ended'],
                         'impl_records': len(cases[-1]['recs']), 'impl_end': cases[-1]['end']})
-    can = []
-    import copy
-    pool = [c for c in cases if c['recs']]
-    for k, c in enumerate(rng.sample(pool, min(8, len(pool)))):
-        z = copy.deepcopy(c)
-        z['canary_of'] = z['id']
-        z['id'] = 'canary-%d' % k
-        if k % 2:
-            z['recs'].pop()
-        else:
-            z['end'] = 'parse' if z['end'] == 'done' else 'done'
-        can.append(z)
+    def _mk_canaries():
+        can = []
+        import copy
+        pool = [c for c in cases if c['recs']]
+        for k, c in enumerate(rng.sample(pool, min(8, len(pool)))):
+            z = copy.deepcopy(c)
+            z['canary_of'] = z['id']
+            z['id'] = 'canary-%d' % k
+            if k % 2:
+                z['recs'].pop()
+            else:
+                z['end'] = 'parse' if z['end'] == 'done' else 'done'
+            can.append(z)
+        return can
+    can = run.tolerant(_mk_canaries)
     v = run.judge('Trace_Reader', cases + can, cat.tables(), canary_ids=[c['id'] for c in can],
                   describe=describe)
     run.notes['spec_accepted'] = sum(1 for c in cases if v[c['id']][2] == 'accepted')
